@@ -41,6 +41,21 @@ CLAIMED = {
    "One compiled bundle, one set of data/$ij maps and catalogues live through a seeded history of renders, faulted renders (failing writer at write k, user function panicking at invocation n, ill-typed data), JS generation, re-compilation and reused Renderer values, with 0-2 obligatory directives configured. After every operation outputs must equal a model computed on a freshly compiled bundle and a reflection digest of data, $ij, catalogue, registry (every AST node), soy.Bundle and global registries must be unchanged. Histories run on the plain and on the instrumented build. Seeded sampling of histories and bundles.",
    "Trusts the reflection digest to see every field that matters (it walks exported and unexported fields, slices up to len, maps order-independently; it does not look into spare slice capacity) and the generator to reach the features that carry state (it is valid by construction: a compile failure is a discard and is counted).",
    "DESIGN.md section 4 C08"),
+ "C09": ("exploration",
+   "seeded one-task-at-a-time scheduler over real goroutines with handoffs hidden from ThreadSanitizer (race-freedom), plus interleaving search (random/PCT/coarse/round-robin) against a run-alone output oracle",
+   "Client tasks share one compiled bundle, data maps and message bundle and render, generate JS, compile and parse under a schedule drawn from the run's PRNG; yields sit before every statement of soy. The baton is handed over with channel operations the race detector is told to ignore, so the execution is serial and exactly replayable yet any pair of conflicting accesses soy does not order itself is reported - independent of the interleaving chosen - while the interleaving search feeds the second oracle (bytes equal the operation run alone). Sampling over bundles, operation mixes and schedules; a determinism slice re-executes units in fresh processes inside every run.",
+   "Trusts ThreadSanitizer and the Go memory model annotation of channels, go statements and sync; trusts that runtime.RaceDisable hides exactly the simulator's handoffs (self-tested: an unsynchronised shared append is reported in every execution, a mutex-protected one never). Blocking primitives other than channels, Mutex/RWMutex and Once are not modelled.",
+   "DESIGN.md section 3.3 and 4 C09"),
+ "C10": ("exploration",
+   "map-iteration-order seam: every range-over-map site of the placeholder naming pass is perturbed one at a time and all together with seeded, replayable order decisions; plus compile histories, context variants, sensitivity variants and a native cross-process comparison",
+   "Decides the stability, independence and sensitivity clauses: ids, placeholder names and placeholder strings must not depend on Go's map iteration order (decided through the seam, which reaches every rotation on demand instead of waiting for the runtime to pick it), on what was compiled before, on the process, on surrounding messages, file, namespace, template or description - and must change with text, meaning, placeholders and plural structure. Conformance of the numbers to Google's fingerprint is NOT decided (pure function with an external reference).",
+   "Trusts that map iteration order is the only schedule-like input of the naming pass (the native cross-process comparison exists to catch another) and that 63-bit ids do not collide in the sensitivity clause.",
+   "DESIGN.md section 3.5 and 4 C10"),
+ "C13": ("exploration",
+   "map-iteration-order seam over all range-over-map sites and reflect.MapKeys (seeded per-execution decisions, single-site perturbation), file-insertion-order permutations, and the unmodified build in fresh processes under native order",
+   "The only thing between equal sources and equal results is Go's map iteration order and the order files were added; both are treated as a scheduler whose decisions are seeded, logged, replayable and minimisable. The observation vector (accept/reject and error text, message ids and names, rendered output, JS per file x formatter x catalogue) must be identical under every sampled order assignment and every file order (small bundles exhaustively). The native cross-check ties the seam to reality: native vectors must equal the canonical reference, and a native disagreement is reported even without a seam reproduction.",
+   "Trusts the instrumenter to have rewritten every range-over-map (it reports counts and un-modelled order sources such as sync.Map.Range) and that orders produced by the seam are orders the Go runtime may produce (rotations of slot order for single-bucket maps, arbitrary for larger ones, by the language spec).",
+   "DESIGN.md section 3.5 and 4 C13"),
  "C12": ("fault_enumeration",
    "write-fault enumeration: for every generated render, one faulted run per write call index (sticky, transient, partial) and per byte capacity of the fault-free run, against a recording fault-injecting io.Writer",
    "The failure point is enumerated exhaustively per case over every write call and every byte offset of the fault-free run (sampled only beyond 600 calls / 1024 bytes, counted separately), in sticky, transient and partial modes - transient faults are what exposes an ignored error that a later checked write would otherwise mask. Oracle: failed write => non-nil error; accepted bytes are a prefix; nil => complete output. Candidates are confirmed on freshly compiled bundles so that a history dependence (C08) cannot alarm here. Cases are seeded.",
@@ -64,7 +79,7 @@ def main():
             "technique": tech,
         })
     na = [{"property_id": k, "reason": v} for k, v in sorted(NA.items())]
-    planned = ["C09", "C10", "C13"]
+    planned = []
     for p in planned:
         if p not in CLAIMED:
             na.append({"property_id": p, "reason": "simulation check designed (DESIGN.md section 4) but not built yet in this tree; not claimed until its check exists"})
